@@ -269,7 +269,13 @@ def run_mode(payload, timeout=300):
     import time
     t = time.time()
     try:
-        return core.run_impl('c20', payload, timeout=timeout)
+        try:
+            return core.run_impl('c20', payload, timeout=timeout)
+        except RuntimeError:
+            # a worker that died is started once more (a source file being rewritten under it is
+            # not a finding); a crash that repeats, a hang or running out of memory is one
+            time.sleep(2)
+            return core.run_impl('c20', payload, timeout=timeout)
     except Exception as e:  # noqa  (crash, hang, memory)
         return {'crashed': str(e)[-400:]}
     finally:
